@@ -1,4 +1,5 @@
 import Nstd.Variant.LemmasSpec
+import Nstd.Variant.LemmasDec
 import Nstd.Variant.Ieee
 /-
   Property C07 — Variant keeps the last assigned value with independent lazy copies.
@@ -275,6 +276,42 @@ theorem toInt_range (ds : DblSem) (hds : ∀ d r, ds.toI32 d = some r → inS 32
     rw [h1] at h; injection h with h; subst h; exact h2
   · cases v <;> simp [Val.isDbl] at hd
     exact hds _ _ h
+
+/-! ### integers and decimal strings
+
+`toString()` of an integer alternative is its decimal numeral (`toString_table`); reading that
+string back through any conversion that can hold the value returns the integer, for every
+integer of the width — i.e. `atoi/strtoul/atoll/strtoull` (as modelled) invert `printf`. -/
+
+theorem string_roundtrip_int64 (ds : DblSem) (i : Int) (h : inS 64 i) :
+    (Val.str ((Val.int64 i).toStr ds)).toInt64 ds = some i := by
+  simp [Val.toStr, Val.toInt64, strtol_intDec i h]
+
+theorem string_roundtrip_uint64 (ds : DblSem) (i : Int) (h : inU 64 i) :
+    (Val.str ((Val.uint64 i).toStr ds)).toUInt64 ds = some i := by
+  simp [Val.toStr, Val.toUInt64, strtoul_intDec i h]
+
+theorem string_roundtrip_int (ds : DblSem) (i : Int) (h : inS 32 i) :
+    (Val.str ((Val.int i).toStr ds)).toInt ds = some i := by
+  have h64 : inS 64 i := by simp only [inS, pow31, pow63] at *; omega
+  simp [Val.toStr, Val.toInt, strtol_intDec i h64, wrapS32_id i h]
+
+theorem string_roundtrip_uint (ds : DblSem) (i : Int) (h : inU 32 i) :
+    (Val.str ((Val.uint i).toStr ds)).toUInt ds = some i := by
+  have h64 : inU 64 i := by simp only [inU, pow32, pow64] at *; omega
+  simp [Val.toStr, Val.toUInt, strtoul_intDec i h64, wrapU32_id i h]
+
+/-- the string conversion of an integer converts to the same bool as the integer -/
+theorem string_bool_consistent (ds : DblSem) (i : Int) :
+    (Val.str ((Val.int64 i).toStr ds)).toBool ds = (Val.int64 i).toBool ds := by
+  simp [Val.toStr, Val.toBool, strToBool_intDec]
+
+/-- a string holding a decimal numeral compares equal to the integer it denotes, from both sides
+    (the `other == *this` flip of the string case) -/
+theorem eq_int_string (ds : DblSem) (i : Int) (h : inS 32 i) :
+    veq ds (.int i) (.str (intDec i)) = some true ∧ veq ds (.str (intDec i)) (.int i) = some true := by
+  have h64 : inS 64 i := by simp only [inS, pow31, pow63] at *; omega
+  constructor <;> simp [veq, scalarEq, Val.toInt, optEq, strtol_intDec i h64, wrapS32_id i h]
 
 /-! ## equality -/
 
